@@ -367,3 +367,53 @@ func constInt(v constant.Value) (int64, bool) {
 	}
 	return constant.Int64Val(v)
 }
+
+// switchesOn returns value switches in body whose tag type satisfies pred.
+func switchesOn(body *ast.BlockStmt, info *types.Info, pred func(types.Type) bool) []*switchInfo {
+	var out []*switchInfo
+	ast.Inspect(body, func(n ast.Node) bool {
+		sw, ok := n.(*ast.SwitchStmt)
+		if !ok || sw.Tag == nil {
+			return true
+		}
+		tt := info.TypeOf(sw.Tag)
+		if tt == nil || !pred(tt) {
+			return true
+		}
+		si := &switchInfo{Stmt: sw, TagType: tt, Cases: map[string]*ast.CaseClause{}, Values: map[string]constant.Value{}}
+		for _, st := range sw.Body.List {
+			cc := st.(*ast.CaseClause)
+			if cc.List == nil {
+				si.HasDefault = true
+				si.Default = cc
+				continue
+			}
+			for _, e := range cc.List {
+				name := constName(info, e)
+				if name == "" {
+					if tv := info.Types[e]; tv.Value != nil {
+						name = tv.Value.ExactString()
+					}
+				}
+				si.Cases[name] = cc
+			}
+		}
+		out = append(out, si)
+		return true
+	})
+	return out
+}
+
+// mentionsConst: the node uses the named constant.
+func mentionsConst(n ast.Node, info *types.Info, name string) bool {
+	found := false
+	ast.Inspect(n, func(x ast.Node) bool {
+		if id, ok := x.(*ast.Ident); ok {
+			if cobj, ok := info.Uses[id].(*types.Const); ok && cobj.Name() == name {
+				found = true
+			}
+		}
+		return !found
+	})
+	return found
+}
